@@ -162,7 +162,7 @@ def lean_stage(prop, tier, log):
             res["problems"].append("axiom audit failed: " + tail(out, 20))
         cur = None
         text = out.replace("\n  ", " ")
-        for m in re.finditer(r"'([^']+)' (does not depend on any axioms|depends on axioms: \[([^\]]*)\])", text):
+        for m in re.finditer(r"'(\S+)' (does not depend on any axioms|depends on axioms: \[([^\]]*)\])", text):
             nm = m.group(1)
             ax = set() if m.group(3) is None else {a.strip() for a in m.group(3).split(",") if a.strip()}
             res["axioms"][nm] = sorted(ax)
